@@ -5,7 +5,7 @@
    geometry by formatting, closing, mounting and decoding with the extracted decoder (checks/c14.py). *)
 From Coq Require Import ZArith List Bool.
 Import ListNotations.
-From ADF Require Import CPrelude Generated.Layout Generated.Leaf Proofs.GeometryP Proofs.ProgP Proofs.FormatP Model.Bitmap Proofs.BitmapP Proofs.ConserveP.
+From ADF Require Import CPrelude Generated.Layout Generated.Leaf Proofs.GeometryP Proofs.ProgP Proofs.FormatP Model.Bitmap Proofs.BitmapP Proofs.ConserveP Proofs.AllocCountP.
 Local Open Scope Z_scope.
 
 Theorem C14_bitmap_pages : forall n, 0 <= n < 2 ^ 32 - 4064 -> c_nBlock2bitmapSize n = cdiv n 4064.
@@ -47,7 +47,23 @@ Proof. exact count_after_format. Qed.
 Example C14_free_count_witness : count_free (fold_left set_used [880; 881] all_free) 1759 = 1756 /\ count_free (fold_left set_used [880; 881; 882] all_free) 1759 = 1755.
 Proof. split; vm_compute; reflexivity. Qed.
 
+(* the allocation sequence of a format (adfCreateVol + adfWriteNewBitmap) on the allocator mirror: from the bitmap adfCreateBitmap builds, the
+   request for the root (c = 1; c = 2 with the root's cache block), for the p bitmap pages and for the e bitmap extension blocks are all
+   granted on every volume that can hold them; the blocks handed out are distinct blocks of the volume, the first of them is the root block,
+   and size - 2 - c - p - e blocks are free afterwards *)
+Theorem C14_format_allocations : forall root last c p e, 2 < root <= last -> Z.of_nat (c + p + e) <= last - 1 ->
+  exists l1 b1 l2 b2 l3 b3,
+    get_free_blocks (fresh_bm last) root last c = Some (l1, b1) /\ get_free_blocks b1 root last p = Some (l2, b2) /\
+    get_free_blocks b2 root last e = Some (l3, b3) /\
+    count_free b3 last = (last + 1) - 2 - Z.of_nat c - Z.of_nat p - Z.of_nat e /\
+    NoDup (l1 ++ l2 ++ l3) /\ (forall x, In x (l1 ++ l2 ++ l3) -> 2 <= x <= last) /\ ((1 <= c)%nat -> hd 0 l1 = root).
+Proof. exact format_free_count. Qed.
+
+Example C14_format_witness : match get_free_blocks (fresh_bm 1759) 880 1759 2 with Some (l, b) => (l, count_free b 1759) | None => ([], 0) end = ([880; 881], 1756).
+Proof. vm_compute. reflexivity. Qed.
+
 Print Assumptions C14_bitmap_pages.
+Print Assumptions C14_format_allocations.
 Print Assumptions C14_free_count_after_format.
 Print Assumptions C14_bitmap_covers.
 Print Assumptions C14_devtype.
